@@ -117,7 +117,29 @@ def judge_inverse(lch):
     return out
 
 
+def judge_extreme(lch):
+    """A finite triple with L in [0,1] and an extreme (but finite) chroma or hue: the plain inverse still yields a valid 8-bit
+    colour (no reference value is compared: a hue of 1e308 has no meaningful position on the circle in binary64)."""
+    cv = _cv()
+    lch = tuple(float(x) for x in lch)
+    case = {"kind": "extreme", "lch": [repr(x) for x in lch]}
+    out = []
+    for name in ("oklch_to_rgb", "oklch_to_rgb_safe"):
+        try:
+            got = getattr(cv, name)(lch)
+        except Exception as e:  # noqa
+            out.append(dict(sig="inverse/raises_on_finite_triple" if name == "oklch_to_rgb" else "safe/raises", case=case, observed=repr(e),
+                            msg="%s(%s) raised %r" % (name, lch, e)))
+            continue
+        if not _is_rgb8(tuple(got)):
+            out.append(dict(sig="inverse/invalid_value" if name == "oklch_to_rgb" else "safe/invalid_value", case=case, observed=repr(got),
+                            msg="%s(%s) = %r is not a valid 8-bit colour" % (name, lch, got)))
+    return out
+
+
 def judge_case(case):
+    if case["kind"] == "extreme":
+        return judge_extreme([float(x) for x in case["lch"]])
     k = case["kind"]
     if k == "forward":
         return judge_forward(case["rgb"])
@@ -223,6 +245,17 @@ def run(ctx):
     for t in bad_lch:
         ctx.add_violations(judge_inverse(t))
         k += 1
+    # invalid lightness far outside [0,1], finite and not: the safe variant still answers with a valid colour
+    for L in (1e306, -1e306, 1e308, 7.1e305, float("inf"), float("-inf"), float("nan")):
+        for C, H in ((0.1, 30.0), (0.0, 0.0), (float("nan"), 30.0), (0.1, float("inf"))):
+            ctx.add_violations(judge_inverse((L, C, H)))
+            k += 1
+    # finite triples with L in [0,1] but an extreme chroma or hue: the plain inverse too
+    for L in (0.0, 0.5, 1.0):
+        for C in (0.1, 0.5, 1e200, 1e308):
+            for H in (1e308, -1e308, 5.8e307, 1e300, 720.5, -30.0, 360.0000001):
+                ctx.add_violations(judge_extreme((L, C, H)))
+                k += 1
     vals = (-1, 0, 128, 255, 256, 300)
     for r in vals:
         for g in vals:
@@ -237,5 +270,5 @@ def run(ctx):
     ctx.assumptions += [
         "OKLab matrices as published by Ottosson (2020-12-23 revision); per-channel clip for out-of-gamut triples",
         "'L=0 black / L=1 white' judged at C=0 (an out-of-gamut triple with L=0, C>0 clips to a non-black colour by definition)",
-        "NaN/inf are outside the statement ('finite') and not fed",
+        "NaN/inf are outside the statement ('finite') for the plain conversions and not fed to them; the safe variants get them as invalid input",
     ]
